@@ -48,8 +48,10 @@ package main
 import (
 	"bytes"
 	"fmt"
+	"io"
 	"sort"
 	"strings"
+	"testing/iotest"
 	"time"
 
 	"seehuhn.de/go/postscript/type1"
@@ -129,7 +131,21 @@ func body(items []t1model.Item, sc t1gen.Scope) func(c *mc.Ctx, item int) mc.Ver
 			v.Render = render()
 			return v
 		}
-		f, err := type1.Read(bytes.NewReader(data))
+		// how the file reaches the reader is a pure function of the file: from the
+		// start of a seekable reader, from the middle of one (the font embedded in
+		// a larger file, the reader positioned at its first byte), or through a
+		// plain reader that hands over the last bytes together with io.EOF
+		var src io.Reader = bytes.NewReader(data)
+		switch len(data) % 3 {
+		case 1:
+			junk := bytes.Repeat([]byte("%!junk before the font\n"), 1+len(data)%5)
+			rs := bytes.NewReader(append(junk, data...))
+			rs.Seek(int64(len(junk)), io.SeekStart)
+			src = rs
+		case 2:
+			src = iotest.DataErrReader(struct{ io.Reader }{bytes.NewReader(data)})
+		}
+		f, err := type1.Read(src)
 		c.Step()
 		if err != nil {
 			return fail("C06:read-error", "type1.Read failed on a conforming file: "+err.Error())
